@@ -1,8 +1,8 @@
 /-
-  Model of the SIGNED aws-chunked reader: s3api/utils/signed-chunk-reader.go
-  (`NewSignedChunkReader`, `ChunkReader.Read`, `parseAndRemoveChunkInfo`, `parseChunkHeaderBytes`,
-  `handleRdrErr`/`stashAndSkipHeader`, `checkSignature`, `verifyChecksum`, `verifyTrailerSignature`),
-  transcribed statement by statement, bugs included.
+  Model of the SIGNED aws-chunked reader: s3api/utils/signed-chunk-reader.go as of /repo commit
+  cf70120 (`NewSignedChunkReader`, `ChunkReader.Read`, `parseAndRemoveChunkInfo`,
+  `parseChunkHeaderBytes`, `handleRdrErr`/`stashAndSkipHeader`, `checkSignature`, `verifyChecksum`,
+  `verifyTrailerSignature`), transcribed statement by statement.
 
   Conventions
   * SHA-256, HMAC-SHA256 and the trailing-checksum hash are PARAMETERS (`Cfg.sha`, `Cfg.hmac`,
@@ -11,15 +11,11 @@
   * One `Read(p)` = `read cfg st frag isEOF cap`: `frag` are the `n` bytes the underlying reader put
     into `p` (so `frag.length ≤ cap`; `cap` has no other influence on this reader), `isEOF` says
     whether it returned `io.EOF` together with them.
-  * The in-place buffer surgery (`copy(header, header[2:])`, `copy(p, p[bufOffset:n])`) is modelled on
-    the byte lists, including the two stale bytes that the first `copy` leaves at the end of the
-    buffer and that end up in the stash.
-  * `bufio.NewReader(bytes.NewReader(header))` takes a snapshot of the first 4096 bytes of `header` on
-    its first `ReadByte`, i.e. BEFORE `copy(header, header[2:])` shifts the underlying array.  The
-    model parses the un-shifted snapshot; this is exact for `len(header) ≤ 4096` (assumption of the
-    model: stash + fragment ≤ 4096 bytes; the harness keeps whole streams below that).
-  * Where the Go code can panic (`p[:chunkSize]` with a negative size, slice bounds) the outcome is
-    `Status.panic`.
+  * `cr.stash` is a byte list, `[]` = nil: since cf70120 the header buffer is never modified in
+    place, so a nil and an empty non-nil stash behave alike.  `bufio.NewReader(bytes.NewReader(header))`
+    is a cursor over `header`.
+  * `copy(p, p[bufOffset:n])` is modelled on the byte list; where the Go code can panic (slice bounds)
+    the outcome is `Status.panic` (`Props.C12.signed_no_panic`: unreachable).
   * `parseAndRemoveChunkInfo` is recursive on a strict suffix of its buffer; the model recurses on
     fuel, `read` supplies `frag.length + 1` and `Status.fuel` is never produced (`Props.C12.signed_fuel_suffices`).
 -/
@@ -34,6 +30,7 @@ inductive Err where
   | invalidFormat    -- errInvalidChunkFormat
   | malformed        -- errMalformedEncoding
   | badTrailer       -- s3err.GetInvalidTrailingChecksumHeaderErr
+  | unexpectedEOF    -- io.ErrUnexpectedEOF
   deriving DecidableEq, Repr
 
 inductive Status where
@@ -66,7 +63,7 @@ structure State where
   chunkDataLeft : Int := 0
   trailerSig : Bytes := []
   parsedChecksum : Bytes := []
-  stash : Option Bytes := none     -- `nil` vs non-nil matters in the Go code
+  stash : Bytes := []              -- [] = nil
   chunkAcc : Bytes := []           -- written to chunkHash since the last Reset
   csumAcc : Bytes := []            -- written to checksumHash
   isEOF : Bool := false
@@ -177,14 +174,15 @@ def parseTrailer (cfg : Cfg) (sig cur : Bytes) : Except PErr (Parsed × Bytes) :
   .ok ({ chunkSize := 0, sig := sig, trailerSig := trailerSig, checksum := checksum }, cur)
 
 /-- the statements of `parseChunkHeaderBytes` from "read and parse the chunk size" to the last
-`readAndSkip`, on the snapshot cursor -/
-def parseCore (cfg : Cfg) (cur : Bytes) : Except PErr Parsed :=
+`readAndSkip`, on the cursor; also returns the cursor position reached (what `rdr` has not consumed) -/
+def parseCore (cfg : Cfg) (cur : Bytes) : Except PErr (Parsed × Bytes) :=
   match readUntil 59 cur with                         -- readAndTrim(rdr, ';')
   | none => .error (.rd .eof)
   | some (chunkSizeStr, cur) =>
   match parseIntHex64 chunkSizeStr with
   | none => .error (.fail .invalidFormat)
   | some chunkSize =>
+  if chunkSize < 0 then .error (.fail .invalidFormat) else
   match readAndSkip chunkSignatureLit cur with
   | .error e => .error (.rd e)
   | .ok cur =>
@@ -198,15 +196,15 @@ def parseCore (cfg : Cfg) (cur : Bytes) : Except PErr Parsed :=
       | .ok (r, cur) =>
         match readAndSkip [10, 13, 10] cur with       -- "\r\n\r\n" is followed after the last chunk
         | .error e => .error (.rd e)
-        | .ok _ => .ok r
+        | .ok cur => .ok (r, cur)
     else
       match readAndSkip [10, 13, 10] cur with
       | .error e => .error (.rd e)
-      | .ok _ => .ok { chunkSize := 0, sig := sig }
+      | .ok cur => .ok ({ chunkSize := 0, sig := sig }, cur)
   else
     match readAndSkip [10] cur with
     | .error e => .error (.rd e)
-    | .ok _ => .ok { chunkSize := chunkSize, sig := sig }
+    | .ok cur => .ok ({ chunkSize := chunkSize, sig := sig }, cur)
 
 inductive HdrRes where
   | chunk (chunkSize : Int) (sig : Bytes) (bufOffset : Int)
@@ -214,56 +212,39 @@ inductive HdrRes where
   | fail (e : Err)
   deriving DecidableEq, Repr
 
-/-- `copy(header, header[2:])` for `len(header) ≥ 2`: everything moves two places to the front, the
-last two bytes stay what they were. -/
-def shift2 (h : Bytes) : Bytes := h.drop 2 ++ h.drop (h.length - 2)
-
 /-- `handleRdrErr(err, header)` (with `stashAndSkipHeader`) -/
 def handleRdrErr (st : State) (e : RdErr) (header : Bytes) : State × HdrRes :=
   match e with
-  | .eof => if st.isEOF then (st, .fail .invalidFormat) else ({ st with stash := some header }, .skip)
+  | .eof => if st.isEOF then (st, .fail .invalidFormat) else ({ st with stash := header }, .skip)
   | .mismatch => (st, .fail .malformed)
 
-/-- second half of `parseChunkHeaderBytes`: from "read and parse the chunk size" on.  `p`, `n` = the
-caller's buffer and length as they are now, `header` = the header array as it is now (shifted or
-not), `cur` = the snapshot cursor. -/
-def finishHeader (cfg : Cfg) (st : State) (stashLen : Nat) (p header cur : Bytes) (n : Int) :
-    State × Bytes × Int × HdrRes :=
-  match parseCore cfg cur with
-  | .error (.rd e) =>
-    let r := handleRdrErr st e header
-    (r.1, p, n, r.2)
-  | .error (.fail e) => (st, p, n, .fail e)
-  | .ok r =>
+/-- the cursor part of `parseChunkHeaderBytes` on the whole `header`: the CRLF that precedes every
+header but the first, then `parseCore`; returns what the cursor has not consumed -/
+def parseHeader (cfg : Cfg) (first : Bool) (header : Bytes) : Except PErr (Parsed × Bytes) :=
+  if first then parseCore cfg header
+  else
+    -- After the first chunk each chunk header should start with "\r\n"
+    match readAndSkip [13, 10] header with
+    | .error e => .error (.rd e)
+    | .ok cur => parseCore cfg cur
+
+/-- `parseChunkHeaderBytes(p[:n], &n)`: new state and result (`bufOffset` relative to `p`). -/
+def parseChunkHeaderBytes (cfg : Cfg) (st : State) (p : Bytes) : State × HdrRes :=
+  let stashLen := st.stash.length
+  if stashLen > maxHeaderSize then (st, .fail .invalidFormat) else
+  let header := st.stash ++ p                      -- tmp (or p itself when the stash is nil)
+  let st := { st with stash := [] }
+  let skip : Nat := if st.isFirstHeader then 0 else 2
+  match parseHeader cfg st.isFirstHeader header with
+  | .error (.rd e) => handleRdrErr st e header
+  | .error (.fail e) => (st, .fail e)
+  | .ok (r, _) =>
     if r.chunkSize = 0 then
       let st := if cfg.trailer ≠ [] then { st with trailerSig := r.trailerSig, parsedChecksum := r.checksum } else st
-      (st, p, n, .chunk 0 r.sig 0)
+      (st, .chunk 0 r.sig 0)
     else
-      let ind := indexCRLF header
-      (({ st with isFirstHeader := false } : State), p, n, .chunk r.chunkSize r.sig (ind + 2 - stashLen))
-
-/-- `parseChunkHeaderBytes(p[:n], &n)`.  Returns the new state, the caller's buffer `p` as it is
-afterwards (shifted in place when `header` aliased it), the caller's `n`, and the result. -/
-def parseChunkHeaderBytes (cfg : Cfg) (st : State) (p : Bytes) : State × Bytes × Int × HdrRes :=
-  let n : Int := p.length
-  let stashLen := (st.stash.getD []).length
-  if stashLen > maxHeaderSize then (st, p, n, .fail .invalidFormat) else
-  let aliased := st.stash.isNone                  -- header is p itself
-  let header := match st.stash with
-    | some s => s ++ p                            -- tmp
-    | none => p
-  let st := { st with stash := none }
-  -- rdr := bufio.NewReader(bytes.NewReader(header)): snapshot of `header` as it is now
-  -- After the first chunk each chunk header should start with "\r\n"
-  if !st.isFirstHeader && stashLen == 0 then
-    match readAndSkip [13, 10] header with
-    | .error e =>
-      let r := handleRdrErr st e header
-      (r.1, p, n, r.2)
-    | .ok cur =>
-      let header' := shift2 header                -- copy(header, header[2:]); *l = *l - 2
-      finishHeader cfg st stashLen (if aliased then header' else p) header' cur (n - 2)
-  else finishHeader cfg st stashLen p header header n
+      let ind := indexCRLF (header.drop skip) + skip        -- bytes.Index(header[skip:], "\r\n") + skip
+      (({ st with isFirstHeader := false } : State), .chunk r.chunkSize r.sig (ind + 2 - stashLen))
 
 /-! ### parseAndRemoveChunkInfo -/
 
@@ -294,33 +275,46 @@ def joinRec (chunkSize : Int) (d : Bytes) (r : State × Out) : State × Out :=
     if chunkSize + (r.2.out.length : Int) > intMax then (r.1, ⟨[], .err .sigMismatch⟩)
     else (r.1, ⟨d ++ r.2.out, s⟩)
 
+/-- `(n + k, err)` from `(n, err)`: the `k` bytes `d` stay in front of what the callee left in the
+buffer (nothing is handed out after a panic) -/
+def prepend (d : Bytes) (r : State × Out) : State × Out :=
+  match r.2.status with
+  | .panic => (r.1, ⟨[], .panic⟩)
+  | .fuel => (r.1, ⟨[], .fuel⟩)
+  | s => (r.1, ⟨d ++ r.2.out, s⟩)
+
+/-- `parseAndRemoveChunkInfo(p)` from `parseChunkHeaderBytes` on; `rec` = the recursive call -/
+def parBody (cfg : Cfg) (rec : State → Bytes → State × Out) (st : State) (p : Bytes) : State × Out :=
+  match parseChunkHeaderBytes cfg st p with
+  | (st, .skip) => ({ st with chunkDataLeft := 0 }, ⟨[], .nil⟩)
+  | (st, .fail e) => (st, ⟨[], .err e⟩)
+  | (st, .chunk chunkSize sig bufOffset) =>
+    let st := { st with parsedSig := sig }
+    if chunkSize == 0 then finalChunk cfg st
+    else
+      -- copy(p, p[bufOffset:n]); n -= bufOffset
+      if bufOffset < 0 ∨ (p.length : Int) < bufOffset then (st, ⟨[], .panic⟩) else
+      let data := p.drop bufOffset.toNat
+      if (data.length : Int) > chunkSize then
+        if chunkSize < 0 then (st, ⟨[], .panic⟩) else           -- p[:chunkSize]
+        let d := data.take chunkSize.toNat
+        let st := hashWrite cfg { st with chunkDataLeft := 0 } d
+        joinRec chunkSize d (rec st (data.drop chunkSize.toNat))
+      else
+        let st := hashWrite cfg { st with chunkDataLeft := chunkSize - data.length } data
+        (st, ⟨data, .nil⟩)
+
+/-- one activation of `parseAndRemoveChunkInfo(p)`: the pending signature check, then `parBody` -/
+def parStep (cfg : Cfg) (rec : State → Bytes → State × Out) (st : State) (p : Bytes) : State × Out :=
+  let checked : Except Err State := if st.parsedSig ≠ [] then checkSignature cfg st else .ok st
+  match checked with
+  | .error e => (st, ⟨[], .err e⟩)
+  | .ok st => parBody cfg rec st p
+
 /-- `parseAndRemoveChunkInfo(p)`: new state, and `(p[:n], err)` as the caller sees them. -/
 def parseAndRemove (cfg : Cfg) : Nat → State → Bytes → State × Out
   | 0, st, _ => (st, ⟨[], .fuel⟩)
-  | fuel + 1, st, p =>
-    let checked : Except Err State := if st.parsedSig ≠ [] then checkSignature cfg st else .ok st
-    match checked with
-    | .error e => (st, ⟨[], .err e⟩)
-    | .ok st =>
-    match parseChunkHeaderBytes cfg st p with
-    | (st, _, _, .skip) => ({ st with chunkDataLeft := 0 }, ⟨[], .nil⟩)
-    | (st, _, _, .fail e) => (st, ⟨[], .err e⟩)
-    | (st, p, n, .chunk chunkSize sig bufOffset) =>
-      let st := { st with parsedSig := sig }
-      if chunkSize == 0 then finalChunk cfg st
-      else
-        -- copy(p, p[bufOffset:n]); n -= bufOffset
-        if bufOffset < 0 ∨ n < bufOffset then (st, ⟨[], .panic⟩) else
-        let data := (p.drop bufOffset.toNat).take (n - bufOffset).toNat
-        let n := n - bufOffset
-        if n > chunkSize then
-          if chunkSize < 0 then (st, ⟨[], .panic⟩) else           -- p[:chunkSize]
-          let d := data.take chunkSize.toNat
-          let st := hashWrite cfg { st with chunkDataLeft := 0 } d
-          joinRec chunkSize d (parseAndRemove cfg fuel st (data.drop chunkSize.toNat))
-        else
-          let st := hashWrite cfg { st with chunkDataLeft := chunkSize - n } data
-          (st, ⟨data, .nil⟩)
+  | fuel + 1, st, p => parStep cfg (parseAndRemove cfg fuel) st p
 
 /-- `(*ChunkReader).Read(p)` where the underlying reader delivered `frag` (and `io.EOF` iff `isEOF`).
 `cap = len(p)`; the reader itself never looks at it. -/
@@ -332,14 +326,11 @@ def read (cfg : Cfg) (st : State) (frag : Bytes) (isEOF : Bool) (_cap : Nat) : S
     if chunkSize < 0 then (st, ⟨[], .panic⟩) else               -- p[chunkSize:n]
     let d := frag.take chunkSize.toNat
     let st := if chunkSize > 0 then hashWrite cfg st d else st
-    let (st, o) := parseAndRemove cfg (frag.length + 1) st (frag.drop chunkSize.toNat)
-    match o.status with
-    | .panic => (st, ⟨[], .panic⟩)
-    | .fuel => (st, ⟨[], .fuel⟩)
-    | s => (st, ⟨d ++ o.out, s⟩)
+    prepend d (parseAndRemove cfg (frag.length + 1) st (frag.drop chunkSize.toNat))
   else
     let st := hashWrite cfg { st with chunkDataLeft := st.chunkDataLeft - n } frag
-    (st, ⟨frag, if isEOF then .eof else .nil⟩)
+    -- the stream may only end with the final (zero-sized) chunk
+    (st, ⟨frag, if isEOF then .err .unexpectedEOF else .nil⟩)
 
 /-! ### io.Copy / io.ReadAll over a fragmenting underlying reader -/
 
@@ -349,11 +340,16 @@ reader answers `(0, io.EOF)`. Result: all bytes handed to the consumer, and the 
 def runFrom (cfg : Cfg) : State → List (Bytes × Bool) → Bytes → Bytes × Status
   | st, [], acc =>
     let (_, o) := read cfg st [] true 0
-    (acc ++ o.out, o.status)
+    match o.status with
+    | .panic => ([], .panic)
+    | .fuel => ([], .fuel)
+    | s => (acc ++ o.out, s)
   | st, (f, e) :: ds, acc =>
     let (st, o) := read cfg st f e f.length
     match o.status with
     | .nil => runFrom cfg st ds (acc ++ o.out)
+    | .panic => ([], .panic)                    -- the process is gone: no object
+    | .fuel => ([], .fuel)
     | s => (acc ++ o.out, s)
 
 def run (cfg : Cfg) (seedSig : Bytes) (ds : List (Bytes × Bool)) : Bytes × Status :=
